@@ -50,6 +50,40 @@ def make_state(p):
     return st
 
 
+_MINIMAL = [None]
+
+
+def reported_flags(p):
+    """The flag as the library REPORTS it for a codec configuration (codec_features_to_trivial_level_constraints,
+    what the level machinery sees), for the two realisations of component sizes p as a video format: pictures are
+    frames (frame = luma size) and pictures are fields (frame height = twice the luma height).  -1 where the
+    component sizes are not those of a 4:4:4 / 4:2:2 / 4:2:0 format."""
+    lw, lh, cw, ch = p["lw"], p["lh"], p["cw"], p["ch"]
+    if (cw, ch) == (lw, lh):
+        cdf = 0
+    elif lw % 2 == 0 and (cw, ch) == (lw // 2, lh):
+        cdf = 1
+    elif lw % 2 == 0 and lh % 2 == 0 and (cw, ch) == (lw // 2, lh // 2):
+        cdf = 2
+    else:
+        return -1, -1
+    from vc2_conformance.codec_features import CodecFeatures, read_codec_features_csv, codec_features_to_trivial_level_constraints
+    from vc2_data_tables import ColorDifferenceSamplingFormats, PictureCodingModes
+
+    if _MINIMAL[0] is None:
+        with open(os.path.join(os.environ.get("VERIF_REPO", "/repo"), "tests", "sample_codec_features.csv")) as f:
+            _MINIMAL[0] = read_codec_features_csv(f)["minimal"]
+    out = []
+    for fields in (False, True):
+        cf = CodecFeatures(_MINIMAL[0])
+        fh = lh * (2 if fields else 1)
+        cf["video_parameters"] = type(cf["video_parameters"])(cf["video_parameters"], frame_width=lw, frame_height=fh, clean_width=lw, clean_height=fh, color_diff_format_index=ColorDifferenceSamplingFormats(cdf))
+        cf["picture_coding_mode"] = PictureCodingModes.pictures_are_fields if fields else PictureCodingModes.pictures_are_frames
+        cf["dwt_depth"], cf["dwt_depth_ho"], cf["slices_x"], cf["slices_y"] = p["d"], p["dho"], p["sx"], p["sy"]
+        out.append(1 if codec_features_to_trivial_level_constraints(cf)["slices_have_same_dimensions"] else 0)
+    return tuple(out)
+
+
 def geom_event(tid, p, ss=None):
     """Call every geometry function of slice_sizes.py for configuration p and copy the results."""
     if ss is None:
@@ -72,6 +106,7 @@ def geom_event(tid, p, ss=None):
             }
         )
     ev = {"tid": tid, "ev": "geom", "flag": bool(ss.slices_have_same_dimensions(st)), "comps": comps}
+    ev["cf_frames"], ev["cf_fields"] = reported_flags(p)
     for k in ("lw", "lh", "cw", "ch", "d", "dho", "sx", "sy"):
         ev[k] = p[k]
     return ev
@@ -193,9 +228,16 @@ def random_cases(rnd, n_geom, n_bytes):
             d, dho = rnd.randint(0, 4), rnd.randint(0, 2)
             geo.append(dict(lw=lw, lh=lh, cw=cw, ch=ch, d=d, dho=dho, sx=rnd.choice([1, 2, 3, 8, 15, 16, 20, 24, 30]), sy=rnd.choice([1, 2, 3, 5, 9, 17, 27, 30])))
     while len(geo) < n_geom:
-        mode = rnd.randrange(4)
+        mode = rnd.randrange(5)
         d, dho = rnd.randint(0, 5), rnd.randint(0, 3)
-        if mode == 0:  # large extents
+        if mode == 4:  # component sizes of a real video format (4:4:4 / 4:2:2 / 4:2:0), few slices: the flag as
+            # reported for a codec configuration (frames and fields) is recorded as well
+            d, dho = rnd.randint(0, 2), rnd.randint(0, 1)
+            cdf = rnd.randrange(3)
+            lw, lh = 2 * rnd.randint(1, 24), rnd.randint(1, 24) * (2 if cdf == 2 else 1)
+            p = {"lw": lw, "lh": lh, "cw": lw if cdf == 0 else lw // 2, "ch": lh // 2 if cdf == 2 else lh}
+            p.update(sx=rnd.randint(1, 4), sy=rnd.randint(1, 4))
+        elif mode == 0:  # large extents
             hi = 2 ** 29
             p = {k: rnd.randint(1, hi) for k in ("lw", "lh", "cw", "ch")}
             p.update(sx=rnd.randint(1, 24), sy=rnd.randint(1, 24))
@@ -451,6 +493,10 @@ def run(ctx):
         elif (j[2]["num"] * j[2]["sx"] * j[2]["sy"]) % j[2]["den"] != 0 and j[2]["sx"] * j[2]["sy"] > 1:
             nontrivial.add(repr(sorted(j[2].items())))
     outnumber = sum(1 for j, ev in zip(jobs, records) if j[1] == "geom" and (j[2]["sx"] > ev["comps"][0]["sw"][0] or j[2]["sy"] > ev["comps"][0]["sh"][0]))
+    reported = sum(1 for ev in records if ev["ev"] == "geom" and ev.get("cf_fields", -1) != -1)
+    rep_true = sum(1 for ev in records if ev["ev"] == "geom" and ev.get("cf_fields", -1) == 1)
+    if reported < 50 or rep_true == 0 or rep_true == reported:
+        raise RuntimeError("vacuous run: flag reported through codec features for %d configurations (%d true)" % (reported, rep_true))
     flags = sum(1 for ev in records if ev["ev"] == "geom" and ev["flag"])
     ngeom = sum(1 for ev in records if ev["ev"] == "geom")
     if flags == 0 or flags == ngeom or outnumber == 0:
@@ -473,6 +519,7 @@ def run(ctx):
             "big_extent_cases_31_to_100_bits": sum(1 for ev in records if ev["ev"] == "geombig"),
             "cases_with_slices_outnumbering_dc_coefficients": outnumber,
             "cases_with_flag_true": flags,
+            "cases_with_flag_reported_through_codec_features": reported,
             "spec_disagreements": dis + tdis,
             "binding_selftest": st,
             "apalache": apar,
